@@ -20,7 +20,8 @@ Record ocase := OCase {
   oc_results : list Z;
   oc_seen : list Z;
   oc_final : list (nat * (bool * bool * bool) * bool * nat);   (* name class, has key/crt/meta, match, cert id *)
-  oc_rwleft : nat; oc_last : bool; oc_held : nat; oc_recorded : nat
+  oc_rwleft : nat; oc_last : bool; oc_held : nat; oc_recorded : nat;
+  oc_dead : bool     (* the driver found a request waiting for a lock that nobody held any more *)
 }.
 
 (** * Equality tests *)
@@ -29,7 +30,7 @@ Definition op_eqb (a b : op) : bool :=
   | OExists k, OExists j | OLoad k, OLoad j | OStore k, OStore j | ODelete k, ODelete j => skey_eqb k j
   | OLoadOcsp, OLoadOcsp | OAriGet, OAriGet | OOther, OOther => true
   | OLock l, OLock m | OAcq l, OAcq m | OUnlock l, OUnlock m | OEmit l, OEmit m
-  | OIssS l, OIssS m | OIssE l, OIssE m => Nat.eqb l m
+  | OIssS l, OIssS m | OIssE l, OIssE m | OCa l, OCa m => Nat.eqb l m
   | _, _ => false
   end.
 
@@ -182,10 +183,11 @@ Definition s3_ok (c : ocase) : bool :=
 
 (** S4 (error_only_own_fault / takeover): a request fails only if a fault was injected into one
     of its own operations.  A cancellation that the driver had to perform because the request
-    waited for a lock nobody would ever release does not count as its own fault. *)
+    waited for a lock nobody would ever release ([oc_dead]) does not count as its own fault; a
+    cancellation while waiting for a lock that is held does. *)
 Definition own_fault (c : ocase) (t : nat) : bool :=
   existsb (fun o => Nat.eqb (o_tid o) t && negb (fault_eqb (o_fault o) FNone) &&
-                    negb (match o_op o with OAcq _ => true | _ => false end)) (oc_steps c).
+                    negb (oc_dead c && match o_op o with OAcq _ => true | _ => false end)) (oc_steps c).
 Definition init_has (c : ocase) (k : skey) : option value :=
   sto_of_list (oc_init c) k.
 Definition init_bundle_ok (c : ocase) (g : tcfg) : bool :=
@@ -205,8 +207,7 @@ Definition s4_ok (c : ocase) : bool :=
     recorded when all operations have returned; nobody had to be rescued from a leaked lock *)
 Definition unlock_faulted (c : ocase) : bool :=
   existsb (fun o => is_unlock (o_op o) && (fault_eqb (o_fault o) FErr || fault_eqb (o_fault o) FPanic)) (oc_steps c).
-Definition rescued (c : ocase) : bool :=
-  existsb (fun o => match o_op o with OAcq _ => fault_eqb (o_fault o) FCancel | _ => false end) (oc_steps c).
+Definition rescued (c : ocase) : bool := oc_dead c.
 Definition s9_ok (c : ocase) : bool :=
   unlock_faulted c || (Nat.eqb (oc_held c) 0 && Nat.eqb (oc_recorded c) 0 && negb (rescued c)).
 
@@ -241,7 +242,7 @@ Definition get_cfg : dec tcfg :=
   p <- get_nat ;; fl <- get_bool ;; lk <- get_nat ;; pk <- get_nat ;; vk <- get_nat ;; idn <- get_nat ;;
   ru <- get_bool ;; ck <- get_bool ;; fo <- get_bool ;; du <- get_bool ;;
   match (match p with 0%nat => Some (PObtain fl) | 1%nat => Some (PRenew fl) | 2%nat => Some PManage
-                 | 3%nat => Some (PClean fl) | 4%nat => Some (PAri fl) | _ => None end) with
+                 | 3%nat => Some (PClean fl) | 4%nat => Some (PAri fl) | 5%nat => Some (PAcct fl) | _ => None end) with
   | Some pr => ret (TCfg pr lk pk vk idn ru ck fo du)
   | None => fun _ => None
   end.
@@ -265,7 +266,7 @@ Definition get_op : dec op :=
   | 1%nat => wk OExists | 2%nat => wk OLoad | 3%nat => wk OStore | 4%nat => wk ODelete
   | 5%nat => ret OLoadOcsp | 6%nat => ret (OLock a) | 7%nat => ret (OAcq a) | 8%nat => ret (OUnlock a)
   | 9%nat => ret (OEmit a) | 10%nat => ret (OIssS a) | 11%nat => ret (OIssE a) | 12%nat => ret OAriGet
-  | 13%nat => ret OOther
+  | 13%nat => ret OOther | 14%nat => ret (OCa a)
   | _ => fun _ => None
   end.
 Definition get_ostep : dec ostep :=
@@ -281,8 +282,8 @@ Definition get_case : dec ocase :=
   res <- get_list get_z ;;
   sn <- get_list get_z ;;
   fin <- get_list get_final ;;
-  rw <- get_nat ;; la <- get_bool ;; held <- get_nat ;; rec <- get_nat ;;
-  ret (OCase mode cfgs ini steps res sn fin rw la held rec).
+  rw <- get_nat ;; la <- get_bool ;; held <- get_nat ;; rec <- get_nat ;; dead <- get_bool ;;
+  ret (OCase mode cfgs ini steps res sn fin rw la held rec dead).
 
 Definition check_line (l : list Z) : Z :=
   match decode get_case l with
